@@ -245,3 +245,111 @@ func stripChange(v ssa.Value) ssa.Value {
 		}
 	}
 }
+
+// valueLeaves expands a value into the alternatives it can stand for: phi edges, results of in-package helpers (each Return,
+// with the helper's parameters mapped back through the call), spilled variables. A leaf is a value that is none of these.
+type leafVal struct {
+	v     ssa.Value
+	chain []*ssa.Call
+}
+
+func valueLeaves(v ssa.Value, chain []*ssa.Call, depth int) []leafVal {
+	if depth > 8 {
+		return []leafVal{{v, chain}}
+	}
+	switch x := v.(type) {
+	case *ssa.Phi:
+		var out []leafVal
+		for _, e := range x.Edges {
+			if e == ssa.Value(x) {
+				continue
+			}
+			out = append(out, valueLeaves(e, chain, depth+1)...)
+		}
+		return out
+	case *ssa.Parameter:
+		for i := len(chain) - 1; i >= 0; i-- {
+			cal := staticCallee(&chain[i].Call)
+			if cal == nil || origin(x.Parent()) != cal {
+				continue
+			}
+			for k, p := range x.Parent().Params {
+				if p == x {
+					args := chain[i].Call.Args
+					if k < len(args) {
+						return valueLeaves(args[k], chain[:i], depth+1)
+					}
+					// f(g()): the arguments are the results of the single tuple-valued argument
+					if len(args) == 1 {
+						if _, isTuple := args[0].Type().(*types.Tuple); isTuple {
+							return []leafVal{{&tupleElem{args[0], k}, chain[:i]}}
+						}
+					}
+				}
+			}
+		}
+	case *ssa.Call:
+		if ls := helperResultLeaves(x, 0, chain, depth); ls != nil {
+			return ls
+		}
+	case *ssa.Extract:
+		if call, ok := x.Tuple.(*ssa.Call); ok {
+			if ls := helperResultLeaves(call, x.Index, chain, depth); ls != nil {
+				return ls
+			}
+		}
+	case *ssa.UnOp:
+		if x.Op == token.MUL {
+			if cell, ok := x.X.(*ssa.Alloc); ok {
+				sts := storesTo(cell)
+				if len(sts) > 0 && len(sts) <= 4 {
+					var out []leafVal
+					for _, st := range sts {
+						out = append(out, valueLeaves(st.Val, chain, depth+1)...)
+					}
+					return out
+				}
+			}
+		}
+	}
+	return []leafVal{{v, chain}}
+}
+
+// tupleElem stands for element #idx of a tuple-valued call used as the whole argument list of another call (f(g())).
+type tupleElem struct {
+	tuple ssa.Value
+	idx   int
+}
+
+func (t *tupleElem) Name() string                  { return "tuple-elem" }
+func (t *tupleElem) String() string                { return "tuple-elem" }
+func (t *tupleElem) Type() types.Type              { return t.tuple.Type().(*types.Tuple).At(t.idx).Type() }
+func (t *tupleElem) Parent() *ssa.Function         { return nil }
+func (t *tupleElem) Referrers() *[]ssa.Instruction { return nil }
+func (t *tupleElem) Pos() token.Pos                { return t.tuple.Pos() }
+
+func helperResultLeaves(call *ssa.Call, idx int, chain []*ssa.Call, depth int) []leafVal {
+	cal := staticCallee(&call.Call)
+	if cal == nil || cal.Blocks == nil || call.Parent() == nil || rootFn(cal).Pkg == nil || rootFn(cal).Pkg != rootFn(call.Parent()).Pkg {
+		if cal == nil || cal.Blocks == nil || call.Parent() == nil {
+			return nil
+		}
+		// generic instantiations have no package: accept when the origin lives in the caller's package
+		if o := origin(cal); o == nil || rootFn(o).Pkg != rootFn(call.Parent()).Pkg {
+			return nil
+		}
+	}
+	for _, cc := range chain {
+		if staticCallee(&cc.Call) == cal {
+			return nil
+		}
+	}
+	var out []leafVal
+	sub := append(append([]*ssa.Call{}, chain...), call)
+	instrs(cal, func(b *ssa.BasicBlock, i int, in ssa.Instruction) {
+		if ret, ok := in.(*ssa.Return); ok && idx < len(ret.Results) {
+			out = append(out, valueLeaves(returnedValue(ret, idx), sub, depth+1)...)
+		}
+	})
+	return out
+}
